@@ -9,7 +9,7 @@ def check(run):
             run.rule(r, t)
     for cfg in configs(run):
         F = run.facts(cfg)
-        if cfg == 'base': __import__('common').pins(run, F, 'time_prims')
+        if cfg == 'base': __import__('common').pins(run, F, 'time_prims', 'number_prims')
         n = N.check_isnone(run, F)
         run.floor('NUL.coherent', 'IsNone impls', n, 16)
         N.check_defaults(run, F)
